@@ -19,6 +19,9 @@ pub enum Case {
     LastByte { len: usize, last: u8 },
     /// hash sequence (indices into the purity alphabet); the last call is the one judged
     History { seq: Vec<u16> },
+    /// message = 64-byte blocks from the alphabet {0: zero block, 1: seeded block A, 2: seeded block B, 3: "abcd" x 16}
+    /// followed by the first `tail` bytes of block A
+    Blocks { seq: Vec<u8>, tail: usize },
 }
 
 const PURITY_LENS: [usize; 6] = [0, 3, 55, 56, 64, 119];
@@ -32,6 +35,21 @@ fn message(ctx: &Ctx, c: &Case) -> Vec<u8> {
             m
         }
         Case::History { seq } => purity_msg(ctx, *seq.last().unwrap() as usize),
+        Case::Blocks { seq, tail } => {
+            let a = content("seed", 64, ctx.seed ^ 0xa);
+            let b = content("seed", 64, ctx.seed ^ 0xb);
+            let mut m = Vec::with_capacity(seq.len() * 64 + tail);
+            for s in seq {
+                match s {
+                    0 => m.extend_from_slice(&[0u8; 64]),
+                    1 => m.extend_from_slice(&a),
+                    2 => m.extend_from_slice(&b),
+                    _ => m.extend_from_slice(&b"abcd".repeat(16)),
+                }
+            }
+            m.extend_from_slice(&a[..*tail]);
+            m
+        }
         Case::Offset { class, len, .. } => content(class, *len, ctx.seed),
         Case::LastByte { len, last } => {
             let mut m = content("seed", *len, ctx.seed);
@@ -142,7 +160,7 @@ pub fn run(ctx: &Arc<Ctx>) {
         Err(e) => ctx.machinery_error(format!("missing corpus/sm3.json: {}", e)),
     }
     let lmax = ctx.tier.pick(1100usize, 12000);
-    ctx.set_rule("every length 0..=Lmax x 5 content classes; every single-bit-set message of 55/56/63/64/192 bytes; k*64+{-9,-8,-1,0,1} for k=1..=40; 2^k+{-1,0,1} bytes for k=13..=22 (thorough 26) and lengths whose bit length has distinct non-zero bytes, up to one message of 0x20406081 bytes (bit length 0x0102030408) and, thorough, one of 0x120406081 bytes (more than 2^32 bytes, bit length 0x0902030408); messages passed as slices at byte offsets 1..7 of an aligned buffer; every value of the last byte at 8 lengths; all call sequences of length <=3 over 6 messages (purity). A case is distinct by (kind, length, content/bit). Oracle: independent streaming SM3.");
+    ctx.set_rule("every length 0..=Lmax x 5 content classes; every single-bit-set message of 55/56/63/64/192 bytes; k*64+{-9,-8,-1,0,1} for k=1..=40; 2^k+{-1,0,1} bytes for k=13..=22 (thorough 26) and lengths whose bit length has distinct non-zero bytes, up to one message of 0x20406081 bytes (bit length 0x0102030408) and, thorough, one of 0x120406081 bytes (more than 2^32 bytes, bit length 0x0902030408); messages passed as slices at byte offsets 1..7 of an aligned buffer; every value of the last byte at 8 lengths; every sequence of <= 4 blocks over {zero, A, B, 'abcd' x 16} x 4 tails; all call sequences of length <=3 over 6 messages (purity). A case is distinct by (kind, length, content/bit). Oracle: independent streaming SM3.");
     ctx.note_bound(format!("Lmax={}", lmax));
     let mut cases: Vec<Case> = Vec::new();
     for len in 0..=lmax {
@@ -166,6 +184,30 @@ pub fn run(ctx: &Arc<Ctx>) {
                 cases.push(Case::Class { class: "mod251".into(), len });
             }
         }
+    }
+    // block structure: every sequence of <= 4 blocks over {zero, A, B, "abcd" x 16} (equal neighbours, a zero block after a
+    // non-zero one, a block that returns later) x tails of 0 / 1 / 55 / 56 bytes
+    {
+        let mut seqs: Vec<Vec<u8>> = vec![vec![]];
+        let mut frontier: Vec<Vec<u8>> = vec![vec![]];
+        for _ in 0..4 {
+            let mut next = Vec::new();
+            for s in &frontier {
+                for b in 0..4u8 {
+                    let mut t = s.clone();
+                    t.push(b);
+                    next.push(t);
+                }
+            }
+            seqs.extend(next.iter().cloned());
+            frontier = next;
+        }
+        for s in &seqs {
+            for tail in [0usize, 1, 55, 56] {
+                cases.push(Case::Blocks { seq: s.clone(), tail });
+            }
+        }
+        ctx.cov("block_sequences", json!(seqs.len()));
     }
     for off in 1..8usize {
         for len in (0..=200usize).chain([255, 256, 257, 511, 512, 1000]) {
